@@ -77,6 +77,11 @@ def jobs(tier):
             shape = "flat2" if len(dmg) == 2 else "nested3"
             out.append(("v%d.%s.P16384.identical-files.%s" % (version, shape, "-".join(k[0] for k in dmg)), "job_recheck",
                         dict(prop="C04", version=version, shape=shape, P=16384, K=2 if shape == "flat2" else 1, dmg=dmg, source="ref", dup=True)))
+    for version in (2, 3, 1):       # sibling sub-directories, the damage below the later one
+        for shape, dmg in (("nested4", ["intact", "intact", "flip", "intact"]), ("nested4", ["intact", "intact", "missing", "intact"]),
+                           ("samename2", ["intact", "trunc"]), ("samename2", ["intact", "flip"])):
+            out.append(("v%d.%s.P16384.%s.siblings" % (version, shape, "-".join(k[0] for k in dmg)), "job_recheck",
+                        dict(prop="C04", version=version, shape=shape, P=16384, K=1, dmg=dmg, source="ref")))
     out.extend(rk.matrix_rows(tier, "C04"))
     # a long-lived Checker: verified while intact, content damaged afterwards, verified again on the same object
     for version in (1, 2, 3):
